@@ -764,6 +764,10 @@ def sleepy_history(rng, version, length, fault_p=0.0, cancel_p=0.0):
             op = ("recv", f"{n};255;0;0;17;2.0", (), gw.DEFAULT_TIME)
         elif r < 0.97:
             op = gw.SESSION          # the application reconnects: whatever is parked stays parked
+        elif r < 0.985:
+            # the (sleeping) node itself asks for or reports a value, possibly the very key a command is parked for
+            op = ("recv", f"{n};{rng.choice((0, 1))};{rng.choice((1, 2))};{rng.choice((0, 1))};{rng.choice((0, 2))};{rng.choice(('', '7', '55'))}",
+                  (), gw.DEFAULT_TIME)
         else:
             op = ("recv", f"{n};{rng.choice((0, 1))};0;0;6;d", (), gw.DEFAULT_TIME)
         if op[0] != "session" and fault_p and rng.random() < fault_p:
@@ -823,6 +827,9 @@ def run_c07(ctx) -> Corr:
                     if any(";1;" in g and g.split(";")[2] == "1" for g in got):
                         corr.violate("a message that is not a wake of that node released parked commands", case)
                         break
+                elif before["sbuf"] != o["sbuf"]:
+                    corr.violate("a received message that is not a wake changed what is parked", case)
+                    break
     account(corr, hists, impl, lambda h, op, before, o: before["sbuf"] != o["sbuf"])
     return corr
 
@@ -973,14 +980,16 @@ def run_c10(ctx) -> Corr:
     n = 300 if ctx.tier == "quick" else 5000
     kinds = ["{n};0;1;0;0;5", "{n};1;2;0;0;", "{n};255;4;0;0;fw", "{n};1;0;0;6;d", "{n};255;3;0;0;50", "{n};255;3;0;11;S",
              "{n};255;3;0;12;1", "{n};255;3;0;21;0", "{n};255;3;0;22;5", "{n};255;3;0;32;5", "{n};255;0;0;17;2.0", "{n};255;0;0;17;2.0",
-             "{n};255;3;0;6;", "0;255;3;0;9;log"]
+             "{n};255;3;0;6;", "0;255;3;0;9;log",
+             # another party speaks in between: the gateway reports its version (again), presents itself, is ready
+             "0;255;3;0;2;{v}", "0;255;0;0;18;{v}", "0;255;3;0;14;ready"]
     for i in range(n):
         v = lib.VERSIONS[i % 5]
         h = Hist(v if rng.random() < 0.85 else None, True)
         if rng.random() < 0.3:
             h.preload = [("node", 2, 17, "2.0", "", "", 0, 0, False, False), ("child", 2, 0, 0, 6, "")]
         for _ in range(rng.randint(4, 30)):
-            line = rng.choice(kinds).format(n=rng.choice((1, 2, 3)))
+            line = rng.choice(kinds).format(n=rng.choice((1, 2, 3)), v=rng.choice((v, v, v + ".1", "2.1.0", "2.2", "1.5")))
             faults = (rng.choice((False, True, True, gw.CANCEL)),) if rng.random() < 0.25 else ()
             h.ops.append(("recv", line, faults, gw.DEFAULT_TIME))
         hists.append(h)
@@ -1310,7 +1319,11 @@ def older_types_history(rng, v_old: str, cross: bool, avoid_hb: bool, length: in
         elif r < 0.86:
             line = f"{n};255;4;0;{rng.choice([int(x) for x in to['stream']])};0"
         elif r < 0.9:
-            line = rng.choice(["", "1;2", "bad", "1;255;1;0;0;x"])
+            # lines the codec must judge alike under every version: ill-formed ones, and internal / stream types on a
+            # child id other than the system child (accepted for id request / response only)
+            t = rng.choice(internal)
+            line = rng.choice(["", "1;2", "bad", "1;255;1;0;0;x", f"{n};{rng.choice((0, 1, 7))};3;0;{t};x", f"0;0;3;0;{t};log",
+                               f"{n};0;4;0;0;x", f"{n};255;{rng.choice((1, 2))};0;0;x", f"{n};256;3;0;{t};", f"{n};-1;3;0;{t};"])
         else:
             h.ops.append(("send", (n, c, 1, 0, rng.choice((0, 2)), str(rng.randint(0, 9))), rng.random() < 0.8, ()))
             continue
